@@ -67,8 +67,10 @@ def build(template, names, option, raising):
         deco = log_call(action_type="custom:type")(plain)
     elif option == 2:
         deco = log_call(include_args=[names[0]])(plain)
-    else:
+    elif option == 3:
         deco = log_call(include_result=False)(plain)
+    else:
+        deco = log_call(include_args=[])(plain)  # "log none of the arguments"
     return plain, deco, is_method, src_header
 
 
@@ -113,7 +115,7 @@ def body_E1(ctx):
         k = ctx.choose(len(cand), "name of slot %d" % i)
         names.append(cand[k])
         pool.remove(cand[k])
-    option = ctx.choose(4, "decorator option")
+    option = ctx.choose(5, "decorator option")
     raises = ctx.flag("body raises")
     shapes = call_shapes(names)
     sname, args, kwargs = shapes[ctx.choose(len(shapes), "call shape")]
@@ -158,6 +160,8 @@ def body_E1(ctx):
         expected.pop("self", None)
         if option == 2:
             expected = {k: v for k, v in expected.items() if k == names[0]}
+        elif option == 4:
+            expected = {}
         logged = {k: v for k, v in st.items() if k not in RESERVED}
         expected = {k: v for k, v in expected.items() if k not in RESERVED}
         ctx.check(logged == expected, "start message holds %r, Python binds %r: %s", logged, expected, desc, sig=_sig(names, template, sname, kwargs))
@@ -280,11 +284,11 @@ OBLIGATIONS = [
         E1,
         body_E1,
         "X",
-        desc="10 signature templates x parameter names from an 11-name menu (incl. eliot's own keywords) x 10 call shapes x 4 decorator options x body returns/raises: same outcome as the plain function, one faithful action",
+        desc="10 signature templates x parameter names from an 11-name menu (incl. eliot's own keywords) x 10 call shapes x 5 decorator options x body returns/raises: same outcome as the plain function, one faithful action",
         functions=["log_call", "logging_wrapper", "inspect binding used by log_call", "boltons.funcutils.wraps"],
         shards=_shards,
         twin=[{"twin_label": "hostile-name-valid-call"}],
         timeout={"quick": 100, "thorough": 1500},
-        bounds={"quick": "all 10 templates x (one slot's name free over the 11-name menu, the others plain) x 10 call shapes x 4 options x 2 body outcomes", "thorough": "all ordered name choices for all 2-3 slots"},
+        bounds={"quick": "all 10 templates x (one slot's name free over the 11-name menu, the others plain) x 10 call shapes x 5 options x 2 body outcomes", "thorough": "all ordered name choices for all 2-3 slots"},
     ),
 ]
